@@ -809,6 +809,9 @@ func (d decoder) unmarshalTimestamp(m protoreflect.Message) error {
 	}
 
 	s := tok.ParsedString()
+	if !validTimestampSyntax(s) {
+		return d.newError(tok.Pos(), "invalid %v value %v", genid.Timestamp_message_fullname, tok.RawString())
+	}
 	t, err := time.Parse(time.RFC3339Nano, s)
 	if err != nil {
 		return d.newError(tok.Pos(), "invalid %v value %v", genid.Timestamp_message_fullname, tok.RawString())
@@ -832,6 +835,46 @@ func (d decoder) unmarshalTimestamp(m protoreflect.Message) error {
 	m.Set(fdSeconds, protoreflect.ValueOfInt64(secs))
 	m.Set(fdNanos, protoreflect.ValueOfInt32(int32(t.Nanosecond())))
 	return nil
+}
+
+// validTimestampSyntax reports whether s has the fixed RFC 3339 layout
+// YYYY-MM-DDThh:mm:ss[.fraction](Z|+hh:mm|-hh:mm) with an in-range zone
+// offset. time.Parse alone is more lenient: it accepts a comma as the
+// fraction separator, single-digit hours and offsets such as +24:00.
+func validTimestampSyntax(s string) bool {
+	isDigits := func(s string) bool {
+		for i := 0; i < len(s); i++ {
+			if s[i] < '0' || '9' < s[i] {
+				return false
+			}
+		}
+		return true
+	}
+	if len(s) < len("2006-01-02T15:04:05Z") {
+		return false
+	}
+	if !isDigits(s[0:4]) || s[4] != '-' || !isDigits(s[5:7]) || s[7] != '-' || !isDigits(s[8:10]) || s[10] != 'T' ||
+		!isDigits(s[11:13]) || s[13] != ':' || !isDigits(s[14:16]) || s[16] != ':' || !isDigits(s[17:19]) {
+		return false
+	}
+	s = s[19:]
+	if s[0] == '.' {
+		n := 1
+		for n < len(s) && '0' <= s[n] && s[n] <= '9' {
+			n++
+		}
+		if n == 1 {
+			return false
+		}
+		s = s[n:]
+	}
+	switch {
+	case s == "Z":
+		return true
+	case len(s) == 6 && (s[0] == '+' || s[0] == '-') && isDigits(s[1:3]) && s[3] == ':' && isDigits(s[4:6]):
+		return s[1:3] <= "23" && s[4:6] <= "59"
+	}
+	return false
 }
 
 // The JSON representation for a FieldMask is a JSON string where paths are
